@@ -217,5 +217,208 @@ def main():
     print(json.dumps(res))
 
 
+
+# ------------------------------------------------------------------------------------------------
+# C15 / C16: representations.  The per-object encoders range over a finite domain (subsets of the
+# registered classes x colour subsets x the flat objects of the space), which is enumerated
+# completely; the array level (grids of any shape) is sampled on small shapes.
+REPRESENTABLE = ['NoneGridObject', 'Floor', 'Wall', 'Exit', 'Door', 'Key', 'MovingObstacle', 'Telepod', 'Beacon']
+REAL_COLORS = ['RED', 'GREEN', 'BLUE', 'YELLOW']
+
+
+def _flat_objects(class_names, color_names):
+    from gym_gridverse import grid_object as go
+    out = []
+    for cn in class_names:
+        cls = getattr(go, cn)
+        if cn == 'Door':
+            out += [cls(s, go.Color[c]) for s in go.Door.Status for c in color_names]
+        elif cn in ('Exit', 'Key', 'Telepod', 'Beacon'):
+            out += [cls(go.Color[c]) for c in color_names]
+        elif cn == 'Box':
+            out += [cls(go.Floor())]
+        else:
+            out.append(cls())
+    return out
+
+
+def _rep_case(args):
+    kind, tmask, cmask, seed = args
+    import numpy as np
+    from gym_gridverse import grid_object as go
+    from gym_gridverse.agent import Agent
+    from gym_gridverse.geometry import Orientation, Position, Shape
+    from gym_gridverse.grid import Grid
+    from gym_gridverse.gym import outer_space_to_gym_space
+    from gym_gridverse.observation import Observation
+    from gym_gridverse.representations.observation_representations import make_observation_representation
+    from gym_gridverse.representations.state_representations import make_state_representation
+    from gym_gridverse.spaces import ObservationSpace, StateSpace
+    from gym_gridverse.state import State
+    out = {'evaluations': 0, 'nontrivial': 0, 'failures': [], 'orientation_pairs': 0, 'orientation_collisions': 0}
+    pool = REPRESENTABLE if kind == 'state' else REPRESENTABLE + ['Hidden', 'Box']
+    tnames = [n for k, n in enumerate(pool) if (tmask >> k) & 1]
+    cnames = [n for k, n in enumerate(REAL_COLORS) if (cmask >> k) & 1]
+    if not tnames:
+        return out
+    types = [getattr(go, n) for n in tnames]
+    colors = [go.Color[n] for n in cnames]
+    shape = Shape(3, 5) if kind == 'observation' else Shape(3, 4)
+    space = (StateSpace if kind == 'state' else ObservationSpace)(shape, types, colors)
+    make = make_state_representation if kind == 'state' else make_observation_representation
+    extra = 'NoneGridObject' if kind == 'state' else None
+    member_colors = sorted(set(cnames) | {'NONE'})
+    grid_classes = sorted(set(tnames) | ({'Hidden'} if kind == 'observation' else set()))
+    item_classes = sorted(set(tnames) | {'NoneGridObject'})
+    grid_objs = _flat_objects(grid_classes, member_colors)
+    item_objs = _flat_objects(item_classes, member_colors)
+    r = random.Random(f'{seed}:{kind}:{tmask}:{cmask}')
+
+    C15_WHAT = ('object encoding outside the declared space', 'array outside its declared space',
+                'array outside the advertised gym space', 'gym space conversion failed',
+                'convert and space have different keys', 'representation refuses a representable space',
+                'sampled member rejected by the space')
+
+    def fail(what, **kw):
+        if len(out['failures']) < 2:
+            out['failures'].append(dict(what=what, prop='C15' if what in C15_WHAT else 'C16', kind=kind, types=tnames,
+                                        colors=cnames, **kw))
+
+    for name in ('default', 'no-overlap', 'compact'):
+        try:
+            rep = make(name, space)
+        except ValueError:
+            fail('representation refuses a representable space', name=name)
+            continue
+        gor = rep.representations['grid'].grid_object_representation
+        sp = gor.space
+        seen = {}
+        chans = [set(), set(), set()]
+        for o in grid_objs + item_objs:
+            v = gor.convert(o)
+            out['evaluations'] += 1
+            if not sp.contains(np.asarray(v)):
+                fail('object encoding outside the declared space', name=name, obj=repr(o), value=[int(x) for x in v],
+                     upper=[int(x) for x in sp.upper_bound])
+            key = tuple(int(x) for x in v)
+            if key in seen and not (seen[key] == o):
+                fail('two different objects share an encoding', name=name, a=repr(seen[key]), b=repr(o))
+            for k2, o2 in seen.items():
+                if o2 == o and k2 != key:
+                    fail('equal objects have different encodings', name=name, a=repr(o2), b=repr(o))
+            seen[key] = o
+            for c in range(3):
+                chans[c].add(key[c])
+            if name == 'default' and key != (o.type_index(), o.state_index, o.color.value):
+                fail('default encoding is not the (type, status, colour) index triple', obj=repr(o), value=list(key))
+        if name in ('no-overlap', 'compact'):
+            if (chans[0] & chans[1]) or (chans[0] & chans[2]) or (chans[1] & chans[2]):
+                fail('channels share a value', name=name)
+        if name == 'compact':
+            # every value the space allows is used by some object of the space (no gaps, consecutive from zero)
+            allv = set()
+            every = _flat_objects(sorted(set(grid_classes) | set(item_classes)), member_colors)
+            for o in every:
+                allv.update(int(x) for x in gor.convert(o))
+            if allv != set(range(len(allv))):
+                fail('compact encoding has gaps or does not start at zero', used=sorted(allv))
+        # array level on one sampled member state/observation (positional, marker, containment, gym space)
+        h, w = shape.height, shape.width
+        cells = [[r.choice(grid_objs) for _ in range(w)] for _ in range(h)]
+        pos = Position(h - 1, w // 2) if kind == 'observation' else Position(r.randrange(h), r.randrange(w))
+        ori = r.choice(list(Orientation))
+        item = r.choice(item_objs)
+        mk = State if kind == 'state' else Observation
+        x1 = mk(Grid([list(row) for row in cells]), Agent(pos, ori, item))
+        if not space.contains(x1):
+            fail('sampled member rejected by the space', name=name)
+            continue
+        d = rep.convert(x1)
+        out['nontrivial'] += 1
+        if set(d) != set(rep.space):
+            fail('convert and space have different keys', name=name)
+        for k_, arr in d.items():
+            if not rep.space[k_].contains(arr):
+                fail('array outside its declared space', name=name, key=k_)
+        try:
+            if not outer_space_to_gym_space(rep.space).contains(d):
+                fail('array outside the advertised gym space', name=name)
+        except Exception as e:
+            fail('gym space conversion failed', name=name, error=str(e)[:100])
+        g = d['grid']
+        if g.shape != (h, w, 3) or any((g[y, x] != gor.convert(cells[y][x])).any() for y in range(h) for x in range(w)):
+            fail('grid entry is not the encoding of the object in that cell', name=name)
+        m = d['agent_id_grid']
+        if m.shape != (h, w) or m[pos.y, pos.x] != 1 or m.sum() != 1:
+            fail('agent marker wrong', name=name)
+        if (d['item'] != gor.convert(item)).any():
+            fail('item encoding wrong', name=name)
+        # injectivity at the state / observation level: change one thing at a time
+        variants = []
+        y_, x_ = r.randrange(h), r.randrange(w)
+        other = r.choice(grid_objs)
+        c2 = [list(row) for row in cells]
+        c2[y_][x_] = other
+        variants.append(('cell', mk(Grid(c2), Agent(pos, ori, item))))
+        variants.append(('item', mk(Grid([list(row) for row in cells]), Agent(pos, ori, r.choice(item_objs)))))
+        if kind == 'state':
+            variants.append(('position', mk(Grid([list(row) for row in cells]),
+                                            Agent(Position(r.randrange(h), r.randrange(w)), ori, item))))
+        for what, x2 in variants:
+            d2 = rep.convert(x2)
+            same_repr = all((d[k_] == d2[k_]).all() for k_ in d)
+            same_val = (x1.grid == x2.grid) and (x1.agent == x2.agent)
+            out['evaluations'] += 1
+            if same_repr != same_val:
+                fail('representation equality differs from value equality', name=name, varied=what)
+            if same_val and hash(x1.grid) != hash(x2.grid):
+                fail('equal grids hash differently', name=name)
+        # orientation (state: encoded in `agent`; observation: not encoded at all -> known finding D8)
+        o2 = r.choice([o_ for o_ in Orientation if o_ is not ori])
+        x3 = mk(Grid([list(row) for row in cells]), Agent(pos, o2, item))
+        d3 = rep.convert(x3)
+        out['orientation_pairs'] += 1
+        if all((d[k_] == d3[k_]).all() for k_ in d):
+            out['orientation_collisions'] += 1
+    return out
+
+
+def representations(tier, seed):
+    cases = []
+    for kind, nbits in (('state', len(REPRESENTABLE)), ('observation', len(REPRESENTABLE) + 2)):
+        tmasks = range(1, 1 << nbits)
+        if tier == 'quick' and kind == 'observation':
+            r = random.Random(seed)
+            tmasks = sorted(set(r.randrange(1, 1 << nbits) for _ in range(600)) | {(1 << nbits) - 1})
+        for tm in tmasks:
+            for cm in range(16):
+                cases.append((kind, tm, cm, seed))
+    if tier == 'quick':
+        cases = [c for k, c in enumerate(cases) if c[0] == 'observation' or k % 4 == 0 or c[2] in (0, 15)]
+    with mp.Pool(16) as pool:
+        res = pool.map(_rep_case, cases, chunksize=64)
+    pairs = sum(r['orientation_pairs'] for r in res)
+    coll = sum(r['orientation_collisions'] for r in res)
+    failures = [f for r in res for f in r['failures']][:5]
+    if coll:
+        failures.append({'what': 'observation-orientation-not-encoded', 'prop': 'C16', 'pairs': pairs, 'collisions': coll,
+                         'detail': 'two member observations that differ only in agent orientation have equal representations'})
+    return {
+        'what': 'representations: per-object encoders of every space (enumerated), array level sampled (C15, C16)',
+        'bound': ('every non-empty subset of the 9 state-representable classes x every colour subset (state); '
+                  + ('every' if tier != 'quick' else '600 random + full') + ' subset of the 11 classes x every colour subset '
+                  '(observation); every flat object of each space; one sampled member per space and representation on a '
+                  '3x4 / 3x5 grid with single-change variants'),
+        'evaluations': sum(r['evaluations'] for r in res),
+        'distinct_nontrivial': sum(r['nontrivial'] for r in res),
+        'failures': failures,
+        'samples': [{'kind': cases[len(cases) // 3][0], 'type_mask': cases[len(cases) // 3][1], 'colour_mask': cases[len(cases) // 3][2]}],
+        'exhaustive': tier != 'quick',
+    }
+
+
+ITEMS['representations'] = representations
+
+
 if __name__ == '__main__':
     main()
